@@ -81,8 +81,29 @@ func checkC18(ctx *Ctx, r *Report, tier string) {
 	r.Trusted = []string{"go/types constant folding", "sdfxlint symbolic evaluator", "UNC/UNF series (ASME B1.1) and NPT (ASME B1.20.1) tables held in the checker", "write-effect summaries"}
 	r.Assume = []string{"designations follow the naming scheme M<d>x<p>, unc_/unf_<size>[_<tpi>], npt_<size>"}
 	p := ctx.Pkgs["sdf"]
-	fd := ctx.funcDecl("sdf", "initThreadLookup")
-	if fd == nil {
+	// the function that fills the database: initThreadLookup, or (under another name, or as a
+	// package init) the function of the package with the most calls of the Add helpers
+	tableFn := ctx.ssaFunc("sdf", "initThreadLookup")
+	if tableFn == nil {
+		best := 0
+		for f := range ssautil.AllFunctions(ctx.Prog) {
+			if !inModule(f) || f.Pkg == nil || !strings.HasSuffix(f.Pkg.Pkg.Path(), "/sdf") || len(f.Blocks) == 0 {
+				continue
+			}
+			n := 0
+			allInstrs(f, func(_ *ssa.BasicBlock, ins ssa.Instruction) {
+				if c, ok := ins.(*ssa.Call); ok {
+					if g := c.Call.StaticCallee(); g != nil && (g.Name() == "UTSAdd" || g.Name() == "ISOAdd" || g.Name() == "NPTAdd") {
+						n++
+					}
+				}
+			})
+			if n > best || (n == best && n > 0 && tableFn != nil && f.Pos() < tableFn.Pos()) {
+				best, tableFn = n, f
+			}
+		}
+	}
+	if tableFn == nil {
 		r.undecided("H1", "initThreadLookup", 0, "not found")
 		return
 	}
@@ -102,7 +123,7 @@ func checkC18(ctx *Ctx, r *Report, tier string) {
 		pos       token.Pos
 	}
 	var rows []dbRow
-	if ifn := ctx.ssaFunc("sdf", "initThreadLookup"); ifn != nil {
+	if ifn := tableFn; ifn != nil {
 		evr := newEval(ctx, "UTSAdd", "ISOAdd", "NPTAdd")
 		evr.budget = 400000
 		evr.evalRoot(ifn)
@@ -136,7 +157,6 @@ func checkC18(ctx *Ctx, r *Report, tier string) {
 		}
 	}
 	_ = p
-	_ = fd
 	for _, row := range rows {
 		add, name, v, okc := row.add, row.name, row.v, row.okc
 		nRows++
